@@ -16,6 +16,26 @@ mod time;
 mod map;
 mod robot;
 
+/// what a native procedure needs to report a runtime error at one of its arguments
+pub struct NativeContext<'a> {
+    pub file_path: String,
+    pub source: std::sync::Arc<str>,
+    pub spans: &'a [miette::SourceSpan],
+}
+
+impl NativeContext<'_> {
+    /// a runtime error labelled at the argument with the given (0-based) position
+    pub fn error(&self, argument: usize, message: &str, help: &str, label: &str) -> crate::interpreter::errors::RuntimeError {
+        crate::interpreter::errors::RuntimeError {
+            named_source: miette::NamedSource::new(self.file_path.clone(), self.source.clone()),
+            span: self.spans[argument],
+            message: message.to_string(),
+            help: help.to_string(),
+            label: label.to_string(),
+        }
+    }
+}
+
 #[derive(Debug, Clone, Default)]
 pub struct Modules {
     modules: HashMap<String, fn() -> FunctionMap>,
@@ -82,7 +102,12 @@ fn std_core() -> FunctionMap {
         Ok(Value::String(result))
     });
 
-    std_function!(functions => fn INSERT(list: Value::List, i: Value::Number, value: Value) {
+    std_function!(functions => fn INSERT [ctx] (list: Value::List, i: Value::Number, value: Value) {
+        // indexed at one: valid positions are 1 ..= LENGTH + 1
+        let len = list.borrow().len();
+        if !(i >= 1.0) || i as usize > len + 1 {
+            return Err(ctx.error(1, "Invalid List Index", "INSERT position must be between 1 and LENGTH + 1", "Position is out of range"))
+        }
         // subtract one because indexed at one
         list.borrow_mut().insert(i as usize - 1, value.clone());
 
@@ -95,8 +120,12 @@ fn std_core() -> FunctionMap {
         return Ok(Value::Null)
     });
 
-    std_function!(functions => fn REMOVE(list: Value::List, i: Value::Number) {
-        // todo instead of panic with default hook make this return a nice error
+    std_function!(functions => fn REMOVE [ctx] (list: Value::List, i: Value::Number) {
+        // indexed at one: valid positions are 1 ..= LENGTH
+        let len = list.borrow().len();
+        if !(i >= 1.0) || i as usize > len {
+            return Err(ctx.error(1, "Invalid List Index", "REMOVE position must be between 1 and LENGTH", "Position is out of range"))
+        }
         let poped = list.borrow_mut().remove(i as usize - 1);
         return Ok(poped);
     });
